@@ -14,9 +14,10 @@ import (
 
 func init() {
 	fw.Register(&fw.Property{
-		ID:     "C09",
-		Level:  "exploration",
-		Jitter: true,
+		ID:         "C09",
+		Level:      "exploration",
+		Jitter:     true,
+		RaceSample: true,
 		Rule: "random topranking inputs of C08 with 1-6 queries and 1-30 targets and C08's option sets; relation over observed runs: updown list derives the CSVs from the query and target alignments, and topranking under (fasta,fasta), (csv,csv), (csv,fasta), (fasta,csv) must give byte-identical output with one row per query in query-file order; a 5% sample goes through the binary with .csv/.fasta/.fa suffixes; " +
 			"distinct non-trivial = distinct (queries m, targets class, option mode, table) with m >= 2 or a mixed combination",
 		Assumptions: []string{"the CSV is exactly what updown list writes for the same alignment and reference"},
